@@ -28,6 +28,7 @@ def make_cfg(rng: random.Random, profile: str = "c12") -> dict:
         "p_float": rng.choice([0.0, 0.3, 0.7]),
         "p_complex": rng.choice([0.0, 0.0, 0.1]),
         "p_scaled": rng.choice([0.0, 0.3, 0.6]),
+        "p_noise": rng.choice([0.0, 0.0, 0.3]),   # rounding residues (1e-17 .. 1e-9) where exact zeros / relations were
         "cold_start": rng.random() < 0.5,
         "p_evict_step": rng.choice([0.0, 0.03, 0.08]),
         "hot": rng.choice([3, 4, 6]),
@@ -56,6 +57,7 @@ class PoolGen:
         self.recipes: list[dict] = []
         self.by: dict[str, list[int]] = {}
         self.pts: dict[int, list[tuple[int, list]]] = {1: [], 2: [], 3: []}
+        self.pending_poke = None
         self.script: list[dict] = []   # scripted first steps (directed coverage of ops random binding cannot satisfy)
 
     def add(self, k: str, a=None, kw=None, tag=None) -> int:
@@ -101,12 +103,31 @@ class PoolGen:
                     v = [p[i] + k * q[i] for i in range(dim + 1)]
             if not any(v):
                 v[0] = 1
-            return v
+            return self.noisy(v)
         v = self.ivec(dim) + [1]
         if allow_inf and rng.random() < 0.12:
             v[-1] = 0
             if not any(v):
                 v[0] = 1
+            return self.noisy(v, at=len(v) - 1)
+        return v
+
+    NOISE = [5e-17, -5.5e-17, 1e-12, -3e-10, 2e-9]
+
+    def noisy(self, v, at=None):
+        """Results of float computations carry rounding residues where exact arithmetic gives 0 or an exact relation;
+        tolerance-based code (isinf, is_zero, contains) treats them as zero, exact comparisons do not."""
+        rng = self.rng
+        if rng.random() >= self.cfg.get("p_noise", 0.0):
+            return v
+        v = list(v)
+        i = at if at is not None else rng.randrange(len(v))
+        if at is not None and rng.random() < 0.6:
+            # written into the array AFTER construction (recipe key "poke"): operands that are results of library
+            # computations (t * p, views, einsum outputs) never went through a constructor either
+            self.pending_poke = [[i], rng.choice(self.NOISE)]
+            return v
+        v[i] = v[i] + rng.choice(self.NOISE)
         return v
 
     def scaled(self, v):
@@ -116,7 +137,9 @@ class PoolGen:
         return v
 
     def point(self, dim, allow_inf=True):
+        self.pending_poke = None
         v = self.hom(dim, allow_inf)
+        poke, self.pending_poke = self.pending_poke, None
         how = "hom"
         vv = self.scaled(v)
         dt = self.dt()
@@ -126,11 +149,16 @@ class PoolGen:
             how = "affine"
         elif self.rng.random() < 0.2:
             how = "nocopy"
+        if poke is not None:
+            dt, how = ("c" if dt == "c" else "f"), "hom"
         s = self.add("point", [vv], {"how": how, "dt": dt}, tag=f"point{dim}")
+        if poke is not None:
+            self.recipes[-1]["poke"] = poke
         self.pts[dim].append((s, v))
         return s
 
     def pointcoll(self, dim, shape):
+        self.pending_poke = None
         n = math.prod(shape)
         rows = [self.scaled(self.hom(dim)) for _ in range(n)]
         arr = rows
@@ -217,6 +245,18 @@ class PoolGen:
             else:
                 p, q = rng.sample(P, 2)
                 self.add("line_pq", [p, q], tag=f"line{d}")
+        if rng.random() < 0.5 * (1 if cfg.get("p_noise") else 0.2):
+            # a line through a coordinate point (here the origin): one row of its matrix vanishes -- or is a rounding
+            # residue when the second point is only numerically a multiple of the first
+            a_ = self.ivec(d, -3, 3)
+            k_ = rng.choice([2, -1, 3])
+            b_ = [k_ * x for x in a_]
+            if cfg.get("p_noise"):
+                j_ = rng.randrange(d)
+                b_[j_] = b_[j_] + rng.choice(self.NOISE)
+            pa = self.add("point", [a_ + [1]], {"how": "hom", "dt": "f"}, tag="aux")
+            pb = self.add("point", [b_ + [1]], {"how": "hom", "dt": "f"}, tag="aux")
+            self.add("line_pq", [pa, pb], tag=f"line{d}")
         self.add("linecoll_pq", [pc1, pc2], tag=f"linecoll{d}")
         if d == 2:
             self.add("linecoll", [[self.ivec(3) for _ in range(rng.choice([1, 2, 3]))]], {"dt": self.dt()},
